@@ -38,7 +38,7 @@ LEVEL_NOTE = ("Trusted: Coq 8.16.1 kernel incl. vm_compute; standard-library axi
               "Fraction oracle checks the property statement (same points on a grid with all old and new knots, d-fold bisection, interior "
               "multiplicities = degree, untouched directions) on every case; floating-point rounding is modelled as exact.")
 # functions of the numerical core this property rests on that are also tied by the translator (tie theorems: Proofs/GenTie*.v, restated in Props/)
-TRANSLATED = ["helpers.find_span_linear", "helpers.find_spans", "helpers.find_multiplicity", "helpers.knot_insertion_alpha"]
+TRANSLATED = ["helpers.find_span_linear", "helpers.find_spans", "helpers.find_multiplicity", "helpers.knot_insertion_alpha", "helpers.knot_refinement"]
 TECHNIQUE = ("Coq proof (loop invariant of A5.4 over functional arrays: every outer iteration is a Boehm insertion; Boehm's identity; induction on the density; Paramcoq fibre lifts) on a "
              "Gallina model executed by vm_compute against geomdl outputs + exact Fraction before/after oracle")
 
